@@ -126,7 +126,8 @@ where
     }
     // extension elements
     let q: Vec<QuadExtension<B>> = (0..flat.len()).map(|i| QuadExtension::new(flat[i], flat[(i * 5 + 1) % flat.len()])).collect();
-    for len in [0usize, 1, 2, 3, 7, 8] {
+    // every length up to 140 (thorough 300): past one 1024-byte BLAKE3 chunk and one 136-byte SHA3 block
+    for len in 0..=(if max_len > 200 { 300usize } else { 140 }) {
         let list: Vec<QuadExtension<B>> = (0..len).map(|i| q[(i * 7 + 2) % q.len()]).collect();
         s.evals += 1;
         s.nontrivial += 1;
@@ -143,7 +144,7 @@ where
     H: ElementHasher<BaseField = B>,
 {
     let flat: Vec<B> = representation_classes::<B>().into_iter().flatten().collect();
-    for len in [0usize, 1, 2, 5] {
+    for len in 0..=140usize {
         let list: Vec<CubeExtension<B>> = (0..len).map(|i| CubeExtension::new(flat[i % flat.len()], flat[(i * 5 + 1) % flat.len()], flat[(i * 11 + 3) % flat.len()])).collect();
         s.evals += 1;
         s.nontrivial += 1;
@@ -159,7 +160,7 @@ where
 
 pub fn run(args: &Args) {
     let mut report = Report::new(args, "exploration");
-    let max_len = if args.tier == mck::Tier::Thorough { 1100 } else { 200 };
+    let max_len = if args.tier == mck::Tier::Thorough { 4200 } else { 200 };
     type B64 = f64::BaseElement;
     type B62 = f62::BaseElement;
     type B128 = f128::BaseElement;
@@ -182,7 +183,7 @@ pub fn run(args: &Args) {
         mck::report::machinery("no non-canonical f62 representation was produced: the representation-independence part would be vacuous");
     }
     report.extra.insert("f62_noncanonical_representations_used".into(), json!(nc62));
-    s.into_report("byte hashers x fields", json!({"hash_lengths": format!("0..={max_len}"), "merge_many_lists": "0..=5", "hash_elements_lists": "0..=20 base, 0..8 quadratic, 0..5 cubic"}), &mut report);
+    s.into_report("byte hashers x fields", json!({"hash_lengths": format!("0..={max_len}"), "merge_many_lists": "0..=5", "hash_elements_lists": "0..=20 base, every length 0..=140 (thorough 300) quadratic, 0..=140 cubic"}), &mut report);
     report.sample(json!({"hasher": "Blake3_192<f62>", "function": "hash_elements", "elements": "[1, M-1 stored as a non-canonical limb, 0]", "oracle": "first 24 bytes of blake3 over the canonical little-endian encodings"}));
     report.sample(json!({"hasher": "Sha3_256<f64>", "function": "merge_with_int", "value": "18446744069414584321 (= M)", "oracle": "sha3-256(digest || u64 little-endian)"}));
     report.exhaustive = true;
